@@ -233,6 +233,28 @@ def pool_part():
         record(f"TLC finds a counterexample to {inv} when {kw} (structural parameter of Pool.tla)",
                (not r.ok) and inv in (r.violation or ""))
 
+    # liveness: Terminates holds on the specification as it is and fails on a copy in which the worker that finds the
+    # pool idle forgets to unpark the executor thread (the copy lives in its own directory, ahead of specs/ on the path)
+    lwd = os.path.join(WD, "pool_live")
+    os.makedirs(lwd, exist_ok=True)
+    with open(os.path.join(os.path.dirname(os.path.dirname(os.path.abspath(__file__))), "specs", "Pool.tla")) as f:
+        src = f.read()
+    mut = src.replace('    /\\ wpc[w] = "unparkmain"\n    /\\ mtoken\' = TRUE', '    /\\ wpc[w] = "unparkmain"\n    /\\ mtoken\' = mtoken')
+    for tag, text, expect_ok in (("as is", None, True), ("lost unpark of the executor thread", mut, False)):
+        d = os.path.join(lwd, "mut" if text else "orig")
+        os.makedirs(d, exist_ok=True)
+        if text:
+            with open(os.path.join(d, "Pool.tla"), "w") as f:
+                f.write(text)
+        mod, cfg = pooldefs.write_mc("chain", pooldefs.SCENARIOS["chain"], 2, d, invariants=["TypeOK"], **struct)
+        with open(os.path.join(d, cfg)) as f:
+            t = f.read().replace("SPECIFICATION Spec", "SPECIFICATION FairSpec") + "PROPERTIES Terminates\n"
+        with open(os.path.join(d, cfg), "w") as f:
+            f.write(t)
+        r = run_tlc(mod, cfg, d, workers=4, timeout=900)
+        record(f"Pool.tla {tag}: FairSpec => <>Finished is {'satisfied' if expect_ok else 'violated (TLC shows the stuttering counterexample)'}",
+               r.ok == expect_ok and (expect_ok or "Terminates" in (r.violation or "")) and (text is None or mut != src))
+
 
 def chan_part():
     import check_chan
